@@ -71,6 +71,12 @@ def run(ck, replay=None):
         if tuple(ev["shape"]) != shp or not np.allclose(np.asarray(g.voxel_size), np.asarray(img.voxel_size)):
             ck.violation(f"C07:generate_grid:shape-or-voxelsize:{dim}d", "generate_grid does not reproduce the image's voxel shape/size",
                          {"shape": shp, "kind": kind})
+    # observed executions: every grid the repository's own unit tests construct (recorded from outside, lib/suite_recorder.py)
+    suite = ck.record_suite("grid", ["test_grid.py", "test_fv.py", "test_variational_wasserstein_distance.py", "test_patches.py"])
+    for e in suite:
+        if "unreadable" in e:
+            ck.violation(f"C07:TablesReadable:suite:{len(e['shape'])}d", "a grid built by the unit tests has no readable tables", e)
+    events += [e for e in suite if "unreadable" not in e]
     bad = ck.validate("Trace_Grid", "Trace.cfg", events, chunk=80)
     for b in bad:
         s = b["event"]["shape"]
